@@ -5,6 +5,8 @@ package memory
 
 import (
 	"syscall"
+
+	"github.com/tencent/goom/internal/simhook"
 )
 
 // mProtectCrossPage 获取 page 读写权限
@@ -12,6 +14,9 @@ func mProtectCrossPage(addr uintptr, length int, prot int) error {
 	pageSize := syscall.Getpagesize()
 	for p := PageStart(addr); p < addr+uintptr(length); p += uintptr(pageSize) {
 		page := RawAccess(p, pageSize)
+		if err := simhook.Fault(simhook.SiteMprotect, p, uintptr(prot)); err != nil {
+			return err
+		}
 		if err := syscall.Mprotect(page, prot); err != nil {
 			return err
 		}
